@@ -11,7 +11,9 @@
 
 void ascon_permute(ascon_state_t *state, uint8_t first_round)
 __CPROVER_requires(__CPROVER_is_fresh(state, sizeof(ascon_state_t)))
+#if !defined(VERIF_ANY_FIRST_ROUND)
 __CPROVER_requires(first_round <= 12) /* C08: start rounds 0..11; 12 = no rounds */
+#endif
 __CPROVER_requires(VERIF_T_EQ(VERIF_IDX(first_round), CANON_W(state, 0), CANON_W(state, 1),
                               CANON_W(state, 2), CANON_W(state, 3), CANON_W(state, 4)))
 __CPROVER_assigns(__CPROVER_object_whole(state))
